@@ -495,3 +495,67 @@ def _class_table(repo, attr: str) -> Dict[str, List[str]]:
         return {k: sorted(x) for k, x in v.items()} if isinstance(v, dict) else {}
     except Exception:
         return {}
+
+
+_CACHING = ("cached_property", "cache", "lru_cache")
+_MUTABLE_ANN = ("List", "Dict", "Set", "list", "dict", "set", "MutableSequence", "MutableMapping", "DefaultDict", "Deque")
+
+
+def stale_members(repo, module: str, cls: str) -> Dict[str, str]:
+    """Members of a class whose value is fixed at first access although the state they are computed from can change afterwards:
+    the class is not frozen, the member is memoised on the instance (`cached_property`, `cache`, `lru_cache`) and its body reads a
+    field annotated as a mutable container.  Uncached properties/methods that read such a member inherit the defect.
+    member -> explanation."""
+    c = repo.modules[module].classes.get(cls)
+    if c is None:
+        return {}
+    for d in c.decorator_list:
+        if isinstance(d, ast.Call) and any(k.arg == "frozen" and isinstance(k.value, ast.Constant) and k.value.value is True for k in d.keywords):
+            return {}
+    mutable = {b.target.id for b in c.body if isinstance(b, ast.AnnAssign) and isinstance(b.target, ast.Name) and norm(b.annotation).split("[")[0].split(".")[-1] in _MUTABLE_ANN}
+    if not mutable:
+        return {}
+    funcs = {b.name: b for b in c.body if isinstance(b, ast.FunctionDef)}
+
+    def self_reads(f: ast.FunctionDef) -> Set[str]:
+        me = f.args.args[0].arg if f.args.args else "self"
+        return {n.attr for n in ast.walk(f) if isinstance(n, ast.Attribute) and isinstance(n.value, ast.Name) and n.value.id == me}
+
+    out: Dict[str, str] = {}
+    for name, f in funcs.items():
+        decs = {norm(d.func if isinstance(d, ast.Call) else d).split(".")[-1] for d in f.decorator_list}
+        hit = sorted(self_reads(f) & mutable)
+        if decs & set(_CACHING) and hit:
+            out[name] = f"`{cls}.{name}` is memoised on the instance ({sorted(decs & set(_CACHING))[0]}) but is computed from `self.{hit[0]}`, a mutable field of a class that is not frozen"
+    changed = True
+    while changed:
+        changed = False
+        for name, f in funcs.items():
+            if name in out:
+                continue
+            via = sorted(self_reads(f) & set(out))
+            if via:
+                out[name] = f"`{cls}.{name}` reads `self.{via[0]}`: {out[via[0]]}"
+                changed = True
+    return out
+
+
+def check_structure_state(chk, fi: FuncInfo, rule: str = "structure-state") -> None:
+    """The annotation is a function of the residues the structure holds *when the function is called*: every member of the
+    structure parameter the function reads must reflect the current residue list."""
+    if not fi.node.args.args:
+        return
+    param = fi.node.args.args[0].arg
+    stale = stale_members(chk.repo, "tertiary", "Structure3D")
+    used = sorted({n.attr for n in ast.walk(fi.node) if isinstance(n, ast.Attribute) and isinstance(n.value, ast.Name) and n.value.id == param})
+    bad = [a for a in used if a in stale]
+    site = next((n for n in ast.walk(fi.node) if isinstance(n, ast.Attribute) and isinstance(n.value, ast.Name) and n.value.id == param and n.attr in bad), fi.node)
+    chk.expect(
+        not bad,
+        rule,
+        fi.site(site),
+        f"the members of `{param}` that are read ({', '.join(used)}) reflect its current residues",
+        f"`{param}.{bad[0] if bad else ''}` is frozen at its first access: {stale.get(bad[0]) if bad else ''} - after the residue list is edited (residues filtered, added or replaced on the same object) the function keeps annotating the old residues",
+        K(fi, f"structure-state:{','.join(bad)}"),
+        found=bad,
+    )
